@@ -19,10 +19,10 @@ from ..common import Check, MachineryError, main_wrapper, TLA_DIR, VERIF, NCPU, 
 
 PID = 'C17'
 DRV_SRC = os.path.join(VERIF, 'harness', 'cdrv', 'drv_repo.c')
-MC_QUICK = ['Repository_q1', 'Repository_q3', 'Repository_q7']
-MC_THOROUGH = ['Repository_q1', 'Repository_q2', 'Repository_q3', 'Repository_q4', 'Repository_q5', 'Repository_q6', 'Repository_q7']
+MC_QUICK = ['Repository_q1', 'Repository_q3', 'Repository_q7', 'Repository_q8']
+MC_THOROUGH = ['Repository_q1', 'Repository_q2', 'Repository_q3', 'Repository_q4', 'Repository_q5', 'Repository_q6', 'Repository_q7', 'Repository_q8']
 # witness configurations: cause/coverage name -> cfg  (TLC's counterexample is replayed on the real code)
-WITNESS = ['versionless', 'lazy_upgrade', 'lazy_dependency', 'mem_other', 'closure_conflict',
+WITNESS = ['versionless', 'lazy_upgrade', 'lazy_dependency', 'lazy_dep_accepted', 'mem_other', 'closure_conflict',
            'partial', 'numeric', 'depconflict']
 EXPORT_DISKS = ['DiskVersions', 'DiskDeps', 'DiskBad', 'DiskOdd', 'DiskEqual']
 
@@ -459,9 +459,9 @@ def run():
                         pred=pred)
 
         with ThreadPoolExecutor(4) as ex:
-            cases += list(ex.map(witness, WITNESS if not ck.quick else WITNESS[:5]))
+            cases += list(ex.map(witness, WITNESS if not ck.quick else WITNESS[:6]))
         # -------------------------------------------------------- S->C 2: the exported call alphabet, all short histories
-        for q in (['xq1', 'xq3', 'xq7'] if ck.quick else ['xq1', 'xq2', 'xq3', 'xq4', 'xq5', 'xq6', 'xq7']):
+        for q in (['xq1', 'xq3', 'xq7', 'xq8'] if ck.quick else ['xq1', 'xq2', 'xq3', 'xq4', 'xq5', 'xq6', 'xq7', 'xq8']):
             cf = os.path.join(ck.tmp, 'cases-%s.json' % q)
             ck.tlc_mc('RepositoryCases', 'Repository_%s.cfg' % q, timeout=300, workers=1, coverage=False,
                       env={'CASES_FILE': cf}, label='export of worlds and call alphabet')
@@ -501,6 +501,33 @@ def run():
                                       calls=[call('RequirePrivate', f['fns'], f['fver'], True, f['dir']), second,
                                              call('LoadedNamespaces'), call('TypelibPath', f['fns'])],
                                       src='directed: lazy load, eager request, queries'))
+        # -------------------------------------------------------- S->C 2c: directed lazily-registered DEPENDENCY histories
+        # register every recorded dependency of a file lazily (from the directory that has it), then require the
+        # file non-lazily, then query: the dependency must be completed and ITS dependencies loaded
+        seen_w = set()
+        for c in list(cases):
+            if not c['id'].startswith('exh-'):
+                continue
+            w = c['world']
+            wk = stable_hash(w)
+            if wk in seen_w:
+                continue
+            seen_w.add(wk)
+            for fi, f in enumerate(w['disk']):
+                if not f['deps'] or f['fns'] != f['ins']:
+                    continue
+                pres = []
+                for dpn in f['deps']:
+                    holders = [g for g in w['disk'] if g['fns'] == dpn['ns'] and g['fver'] == dpn['ver']]
+                    for g in holders[:1] + holders[-1:]:         # from the first and from the last directory that has it
+                        pres.append([call('RequirePrivate', dpn['ns'], dpn['ver'], True, g['dir'])])
+                if len(pres) > 1:
+                    pres.append([p[0] for p in pres])            # all of them
+                for pi, pre in enumerate(pres):
+                    cases.append(dict(id='lazydep-%s-%d-%d' % (wk, fi, pi), world=w,
+                                      calls=pre + [call('Require', f['fns'], f['fver'], False), call('LoadedNamespaces'),
+                                                   call('Deps', f['fns'])] + [call('TypelibPath', d['ns']) for d in f['deps']],
+                                      src='directed: dependencies registered lazily, dependent required eagerly, queries'))
         if ck.quick:
             # quick: a seeded sample of the 2-call histories (thorough replays all of them)
             exh = [c for c in cases if c['id'].startswith('exh-') and not c['id'].startswith('exh-xq7-')]
